@@ -17,6 +17,7 @@ from . import common
 
 SPEC = {
     "level": "exploration",
+    "level_text": "Exploration by runtime monitoring: every canonicalize_molecule call is followed, inside an icontract post-condition, by k shadow runs of the real pipeline on harness-relabelled copies (permuted labels, shuffled node/edge insertion order, flipped bonds) and the strings are compared; a trace checker adds V3000- and V2000-text variants with permuted atom/bond lines and arbitrary indices, and an exhaustive comparison 'one string per isomorphism class' over ALL labelled graphs on <=4 vertices x 3 colours. Held means: no two observed descriptions of one molecule gave different bytes. The quantifier (all molecules, all n! relabellings) is infinite, so sampling hostile classes plus one exhaustive sub-space is the strongest statement a monitor can make.",
     "suite_under_monitor": True,
     "technique": "metamorphic runtime contract (icontract) on canonicalize_molecule + trace checker over pipeline events",
     "rule": ("cases = abstract molecules from classes M1 (all labelled graphs n<=4/5 x 3-colour palette), M2 random organic, "
